@@ -81,10 +81,13 @@ CHECKS = {
    text="Pooled-buffer and pooled-compressor isolation on the real code: consecutive requests over larking's byte pool (HttpBody bodies retained by the first handler), the pooled gzip compressor with the REAL compress/gzip interpreted (consecutive calls reuse the pooled reader / writer, also after a truncated stream; two compressions in flight at once must get two writers), and - under the engine's cooperative goroutine model - two requests served CONCURRENTLY by one mux on every mix of HTTP transcoding, gRPC and gRPC-web text with scheduling points at every pool operation, atomic load and network read / write: each client must receive exactly the reply to its own request under every schedule within the context bound.",
    note="Trusted base as C07 plus the goroutine model (see C12). NOT claimed: data-race freedom as such, more than two concurrent requests, schedules beyond the context bound, the proxy's stream pumps under C13 (they are exercised under C10). Detects: recycling a buffer before its last use, dropping the copy out of a pooled buffer, returning a pooled gzip writer twice, not resetting a pooled writer.",
    design="§4 C13"),
+ "C20": dict(
+   text="Bounded symbolic model checking of server mounting on the real code: NewServer with MuxHandleOption / HTTPHandlerOption is executed with net/http.ServeMux (pattern registration and routing), http.StripPrefix, the h2c wrapper and http2.ConfigureServer interpreted from source; a request sent as prefix+path to the server's handler must be answered exactly (status, every header, body, handler invocations, captured variables) as an identically built bare mux answers path, for the transcoding, error / Twirp, gRPC and gRPC-web entries and four mount configurations; a path outside every prefix must not reach the mux and a handler added with HTTPHandlerOption must keep its pattern.",
+   note="Partial claim (declined at design time, built later once the drivers existed). Trusted base as C07. Outside: the HTTP/1.1, HTTP/2, h2c-upgrade and TLS wire layers (the request enters at http.Server.Handler.ServeHTTP), unclean paths and the bare-prefix redirect (ServeMux behaviour, unspecified), host- and method-specific patterns, streaming and WebSocket through the mounted server.",
+   design="§10.9"),
 }
 
 NOT_APPLICABLE = {
- "C20": "Decided by net/http.ServeMux pattern precedence, http.StripPrefix and the h2c/HTTP-2 server; larking contributes three straight-line statements. The gRPC half needs real HTTP/2 framing, which cannot be encoded; the rest would be a bounded claim about net/http's router, not about larking.",
 }
 
 ALL = ["C%02d" % i for i in range(1, 21)]
